@@ -324,3 +324,22 @@ SPECS["C13"] = ("""property C13: killing the process at any instant leaves a con
   ("C13_create_crash_recovers", "forall names c, recover_create names c = db_init names", "crash_create_recovers", "incl. the file sized but its marker never written"),
   ("C13_log_inv_reachable", "forall ops s, log_extends s (c_run ops s) /\\ (log_inv s -> log_inv (c_run ops s))", "c_run_log", "the invariant the recovered store satisfies is preserved by all later operations"),
   ], "")
+
+SPECS["C15"] = ("""property C15: event references stay valid and unchanged while the store lives.
+   PARTIAL + KNOWN FINDING.  The logical half is proved: the bytes at a returned offset never
+   change (append-only log).  The address half is FALSE of the faithful model: MmapAppend::resize
+   remaps with may_move(true), so a growth step may relocate the mapping and every reference taken
+   before it dangles (refs_move_witness).  The property is therefore stated for histories outside
+   the known class (no growth step relocates the mapping); any other way a reference changes is
+   still a violation.""",
+  "From Pocket Require Import Db DbProofs Refs.", [
+  ("C15_bytes_immutable",
+   "forall s off e ops, get_event_by_offset s off = Ok e -> get_event_by_offset (c_run ops s) off = Ok e",
+   "readback_forever", "whatever is stored afterwards, by any operation"),
+  ("C15_stable_unless_moved",
+   "forall steps m off, known_class steps = false -> ref_addr (m_run steps m) off = ref_addr m off",
+   "refs_stable_unless_moved", "forall history, ~ KnownClass history -> the reference keeps its address"),
+  ("C15_known_class_refuted",
+   "exists steps m off, known_class steps = true /\\ ref_addr (m_run steps m) off <> ref_addr m off",
+   "refs_move_witness", "the exclusion is provably non-empty: the property as stated is false when the kernel relocates the mapping"),
+  ], "")
